@@ -24,6 +24,28 @@ let totality (fs : string list) : string =
     ("copyright", (fun () -> cls (Copyright.ll_from_str s)));
     ("copyrightr", (fun () -> cls (Copyright.ll_from_str_relaxed s)));
     ("lcopyright", (fun () -> cls (Copyright.ly_from_str Copyright.fixed s)));
+    ("md5", (fun () -> cls (Codecs.cksum_from_str Codecs.Md5 s)));
+    ("sha1", (fun () -> cls (Codecs.cksum_from_str Codecs.Sha1 s)));
+    ("sha256", (fun () -> cls (Codecs.cksum_from_str Codecs.Sha256 s)));
+    ("sha512", (fun () -> cls (Codecs.cksum_from_str Codecs.Sha512 s)));
+    ("priority", (fun () -> cls (EnumTab.enum_parse Enums_gen.coq_Priority_tab s)));
+    ("urgency", (fun () -> cls (EnumTab.enum_parse Enums_gen.coq_Urgency_tab s)));
+    ("multiarch", (fun () -> cls (EnumTab.enum_parse Enums_gen.coq_MultiArch_tab s)));
+    ("vconstraint", (fun () -> cls (EnumTab.enum_parse Enums_gen.coq_VersionConstraint_tab s)));
+    ("origincat", (fun () -> cls (EnumTab.enum_parse Enums_gen.coq_OriginCategory_tab s)));
+    ("repotype", (fun () -> cls (EnumTab.enum_parse Enums_gen.coq_RepositoryType_tab s)));
+    ("ynf", (fun () -> cls (EnumTab.enum_parse Enums_gen.coq_YesNoForce_tab s)));
+    ("pkglist", (fun () -> cls (Codecs.ple_from_str Enums_gen.coq_Priority_tab s)));
+    ("changesfile", (fun () -> cls (Codecs.file_from_str Enums_gen.coq_Priority_tab s)));
+    ("buildprofile", (fun () -> cls (Codecs.profile_from_str s)));
+    ("forwarded", (fun () -> cls (Codecs.forwarded_from_str s)));
+    ("origin", (fun () -> cls (Codecs.origin_from_str s)));
+    ("applied", (fun () -> cls (Codecs.applied_from_str s)));
+    ("license", (fun () -> cls (Codecs.license_from_str s)));
+    ("signature", (fun () -> cls (Codecs.signature_from_str s)));
+    ("identity", (fun () -> cls (Codecs.parse_identity s)));
+    ("parsedvcs", (fun () -> cls (Vcs.parsed_vcs_from_str s)));
+    ("vcsgit", (fun () -> cls (Vcs.vcs_from_field (str_of_hex "476974") s)));
   ] in
   let only = match fs with [_; o] -> Some (S.split_on_char ',' o) | _ -> None in
   let parts = L.filter_map (fun (n, f) ->
